@@ -171,7 +171,10 @@ def kitchen_sink_docs(c1: str = "DLC1", c2: str = "DLC2") -> List[str]:
         'TRANSMISSION-MODE="SEND-AND-RECEIVE"><SHORT-NAME>rich</SHORT-NAME><LONG-NAME>rich service</LONG-NAME>'
         '<DESC TI="ti.desc"><p>a <b>rich</b> service</p><EXTERNAL-DOCS><EXTERNAL-DOC HREF="http://x/y?a=1&amp;b=2">the doc</EXTERNAL-DOC>'
         '</EXTERNAL-DOCS></DESC>' + admin + sdgs +
-        '<FUNCT-CLASS-REFS><FUNCT-CLASS-REF ID-REF="BV.FC"/></FUNCT-CLASS-REFS>' + audience +
+        '<FUNCT-CLASS-REFS><FUNCT-CLASS-REF ID-REF="BV.FC"/></FUNCT-CLASS-REFS>'
+        # an audience that consists of flags only (an element without children)
+        '<AUDIENCE IS-SUPPLIER="true" IS-DEVELOPMENT="false" IS-AFTERSALES="false"/>'
+        +
         '<PROTOCOL-SNREFS><PROTOCOL-SNREF SHORT-NAME="L1"/></PROTOCOL-SNREFS>'
         '<RELATED-DIAG-COMM-REFS><RELATED-DIAG-COMM-REF ID-REF="BV.DC.read"><RELATION-TYPE>precondition</RELATION-TYPE>'
         '</RELATED-DIAG-COMM-REF></RELATED-DIAG-COMM-REFS>'
@@ -211,7 +214,9 @@ def kitchen_sink_docs(c1: str = "DLC1", c2: str = "DLC2") -> List[str]:
         '<ENV-DATA-SNREF SHORT-NAME="env1"/></ENV-DATA-CONNECTOR></ENV-DATA-CONNECTORS>'
         '<DTC-CONNECTORS><DTC-CONNECTOR><SHORT-NAME>dc</SHORT-NAME><DTC-DOP-REF ID-REF="D.dtc"/><DTC-SNREF SHORT-NAME="P0001"/>'
         '</DTC-CONNECTOR></DTC-CONNECTORS></SUB-COMPONENT>']
-    bv.layer_sdgs = sdgs.replace("BV.SDGC", "BV.SDGC3")
+    # a second group refers to the caption of the first instead of bringing its own
+    bv.layer_sdgs = sdgs.replace("BV.SDGC", "BV.SDGC3").replace(
+        "</SDGS>", '<SDG SI="by-ref"><SDG-CAPTION-REF ID-REF="BV.SDGC3"/><SD>referenced caption</SD></SDG></SDGS>')
     bv.layer_admin = admin
     bv.tail = (
         '<DIAG-VARIABLES><DIAG-VARIABLE ID="BV.DV" IS-READ-BEFORE-WRITE="true"><SHORT-NAME>dv1</SHORT-NAME><LONG-NAME>variable</LONG-NAME>'
